@@ -1790,6 +1790,71 @@ example : ¬ ∃ es, Walk exInst exOk 0 es 7 :=
 example : ∃ es, Walk exInst exOk 0 es 3 ∧ cost exCost es = 3 :=
   ⟨[0, 2, 3], by simp [Walk, exInst, exOk, exIncident, exTermV, exKeyV], by norm_num [cost, exCost]⟩
 
+/-! #### Non-vacuity of the generalisation: an instance that needs the invariant
+
+`exInstS` carries a one-slot state that every traversal rewrites.  On a malformed state (any other
+length) its frontier model lets the forbidden shortcut through and its traversal charges nothing:
+`UniformCost` fails, `UniformCostOn` holds with the invariant "the state has one slot" — which the
+initial state satisfies and every traversal passes on — and the `_on` theorems apply to its runs. -/
+
+def exInstS : Inst ℚ :=
+  { exInst with
+    init := [0]
+    valid := fun e st _ => .ok (if st.length = 1 then exOk e else true)
+    trav := fun e _ st =>
+      if st.length = 1 then .ok (1 / 4, exCost e - 1 / 4, st.map (· + exCost e)) else .ok (0, 0, st) }
+
+theorem ex_uniform_on : UniformOn exInstS (fun _ st => st.length = 1) exOk exCost exH where
+  incident_term := ex_uniform.incident_term
+  init_ok := rfl
+  valid_eq := by
+    intro e le st b hS h
+    simp only [exInstS, hS, if_true, Except.ok.injEq] at h
+    exact h.symm
+  trav_eq := by
+    intro e le st ac tc st' hS _ h
+    simp only [exInstS, hS, if_true, Except.ok.injEq, Prod.mk.injEq] at h
+    obtain ⟨h1, h2, h3⟩ := h
+    subst h1 h2 h3
+    exact ⟨by ring, by simpa using hS⟩
+  cost_pos := exCost_pos
+  h_eq := by
+    intro v le st x _ h
+    simp only [exInstS, exInst, Except.ok.injEq] at h
+    exact h.symm
+  h_nonneg := ex_uniform.h_nonneg
+
+/-- the old setting does not cover it: on the empty state the traversal charges 0 -/
+theorem ex_not_uniformCost : ¬ UniformCost exInstS exOk exCost := by
+  intro U
+  obtain ⟨ac, tc, st', h, hc⟩ := U.trav_eq 0 none []
+  simp only [exInstS, List.length_nil, Nat.zero_ne_one, if_false, Except.ok.injEq,
+    Prod.mk.injEq] at h
+  obtain ⟨h1, h2, _⟩ := h
+  rw [← h1, ← h2] at hc
+  have := exCost_pos 0
+  linarith
+
+theorem ex_admissible_S : Admissible exInstS exOk exCost exH 3 :=
+  fun v es hw => ex_admissible v es ((Walk.congr (I := exInst) (I' := exInstS) rfl rfl rfl es v 3).1 hw)
+
+theorem ex_run_ok_S : ∃ s, runAStar exInstS 0 (some 3) [0, 1, 2, 3] = .ok s ∧ s.g 3 = some 3 := by
+  have h : labelOf (runAStar exInstS 0 (some 3) [0, 1, 2, 3]) 3 = some (some 3) := by
+    decide +kernel
+  cases hr : runAStar exInstS 0 (some 3) [0, 1, 2, 3] with
+  | error k => rw [hr] at h; simp [labelOf] at h
+  | ok s =>
+    rw [hr] at h
+    simp only [labelOf, Option.some.injEq] at h
+    exact ⟨s, rfl, h⟩
+
+example : ∀ es, Walk exInstS exOk 0 es 3 → 3 ≤ cost exCost es := by
+  obtain ⟨s, hrun, hs⟩ := ex_run_ok_S
+  obtain ⟨d, hd, _, hmin⟩ := label_optimal_on ex_uniform_on (by decide) ex_admissible_S hrun
+  rw [hs] at hd
+  have : (3 : ℚ) = d := by simpa using hd
+  rw [this]; exact hmin
+
 end Example
 
 end SearchOpt
